@@ -376,7 +376,8 @@ CHECKS["C14"] = {
 CHECKS["C20"] = {
     "src": "C20.cpp",
     "level": "fault_enumeration",
-    "rule": "17 scenarios, one per user-code call site family (lr_guarded::modify functor; ordered_guarded modify/read functors, void and "
+    "rule": "18 scenarios, one per user-code call site family (lr_guarded::modify functor, alone and as a double fault together with the "
+            "copy that rolls back / completes; ordered_guarded modify/read functors, void and "
             "value-returning; Cell assignment / copy inside guarded store, =, load; copy, assignment and == inside atomic_guarded store, exchange, "
             "compare_exchange on both paths; the deep copy in cow_guarded::lock; deferred_guarded functors on the direct and on the queued path; "
             "SearchableObjectHolder predicates in find / find+type / remove; DelayedDestructor callbacks). A fault-free dry run counts the "
@@ -386,7 +387,7 @@ CHECKS["C20"] = {
             "blocking acquisition by the same and by the partner thread completes, lr_guarded all-or-nothing (throw in 1st application: value "
             "unchanged, in 2nd: completed) with both copies equal, objects unchanged by aborted calls, DelayedDestructor elements still destroyed "
             "exactly once. Non-trivial: an exception was actually injected in the round; distinct = (scenario, k, schedule signature).",
-    "assumptions": ["a throw from Cell assignment inside lr_guarded's own roll-back/roll-forward handler (double fault) is documented as indeterminate and not injected",
+    "assumptions": ["a throw from Cell assignment inside lr_guarded's own roll-back/roll-forward handler (double fault) leaves the value indeterminate: in that scenario only lock release, liveness of both copies and single destruction are judged",
                     "the wrapped type's assignment throws before modifying its target (strong guarantee of the payload)"],
     "exhaustive_note": "throw points 1..K of every scenario (K measured by a dry run, listed in samples) are all injected",
     "runs": [
